@@ -17,7 +17,8 @@ EXTENDS Fixed, TLC
 CONSTANTS FIXED,      \* Close emits the buffered outline when the whole subpath is in the first dash (8d51585)
           FIXED2,     \* the Close branch clears is_first_segment at a dash boundary like the LineTo branch
           FIXED3,     \* the offset loop advances when the offset lands exactly on a dash boundary (>=)
-          FIXED4      \* MoveTo flushes the buffered first dash before it starts the new subpath (a2b4637)
+          FIXED4,     \* MoveTo flushes the buffered first dash before it starts the new subpath (a2b4637)
+          FIXED5      \* Close re-arms is_first_segment / first_dash for a subpath continued by LineTo without MoveTo (88a1ad6)
 VARIABLES path,        \* input subpaths
           A, off,      \* dash array (positive integers), offset
           sp,          \* index of the subpath being processed (0 before the first)
@@ -64,8 +65,11 @@ Flush(o, spi, seg) == IF seg = <<>> THEN o
 NSeg(s) == Len(path[s].lens)
 PerimeterOf(s) == SumSeq(path[s].lens) + (IF path[s].closed THEN path[s].lc ELSE 0)
 
+\* a subpath record may carry cont = TRUE: it is begun by a LineTo directly after the Close of the previous subpath
+\* (no MoveTo op; it starts at that subpath's starting point)
+IsCont(s) == "cont" \in DOMAIN path[s] /\ path[s].cont
 DoMoveTo ==
-  /\ ~done /\ sp < Len(path) /\ (IF sp = 0 THEN TRUE ELSE k > NSeg(sp) + (IF path[sp].closed THEN 1 ELSE 0))
+  /\ ~done /\ sp < Len(path) /\ ~IsCont(sp + 1) /\ (IF sp = 0 THEN TRUE ELSE k > NSeg(sp) + (IF path[sp].closed THEN 1 ELSE 0))
   /\ sp' = sp + 1 /\ k' = 1 /\ pos' = 0
   \* repaired: the previous initial segment is flushed, then dashed.move_to(pt) starts the new subpath; the pinned code
   \* did it the other way round, so that a Close following directly (a subpath that is a single point) closed the
@@ -74,6 +78,14 @@ DoMoveTo ==
              ELSE Flush(Append(out, <<"M", sp + 1, 0>>), sp, initSeg)
   /\ isFirstSeg' = TRUE /\ initSeg' = <<>> /\ firstDash' = TRUE /\ ds' = Initial
   /\ UNCHANGED <<path, A, off, done>>
+
+\* no op is consumed: the Close branch has already set cur_pt = start_point, emptied the buffer and restored the
+\* dash state; the repaired code (FIXED5) has also re-armed the two flags there
+DoContinue ==
+  /\ ~done /\ sp >= 1 /\ sp < Len(path) /\ IsCont(sp + 1) /\ path[sp].closed /\ k > NSeg(sp) + 1
+  /\ sp' = sp + 1 /\ k' = 1 /\ pos' = 0
+  /\ isFirstSeg' = (IF FIXED5 THEN TRUE ELSE isFirstSeg) /\ firstDash' = (IF FIXED5 THEN TRUE ELSE firstDash)
+  /\ UNCHANGED <<path, A, off, ds, initSeg, out, done>>
 
 DoLineTo ==
   /\ ~done /\ sp >= 1 /\ k >= 1 /\ k <= NSeg(sp)
@@ -115,7 +127,7 @@ Finish ==
   /\ done' = TRUE
   /\ UNCHANGED <<path, A, off, sp, k, pos, ds, isFirstSeg, firstDash, initSeg>>
 
-Next == DoMoveTo \/ DoLineTo \/ DoClose \/ Finish
+Next == DoMoveTo \/ DoContinue \/ DoLineTo \/ DoClose \/ Finish
 
 (*---------------- what the stroker makes of the emitted ops ----------------*)
 \* subpaths of the output as the stroker sees them: [sp, pts (positions), closed]; zero-length
